@@ -2,6 +2,7 @@
 callbacks that give the monitors an occurrence log independent of
 simulation_data."""
 from . import core, instrument
+from . import modelgen
 from .modelgen import Pred
 
 _classes = {}
@@ -32,6 +33,7 @@ class ModelLog:
         self.restores = []          # (time, dev_id, idx)
         self.hooks = []             # (time, dev_id, 'start'|'end', tag)
         self.script = []            # (time, op dict, outcome)
+        self.gate_calls = []        # (gate id, part, result) predicate evaluations
         self.generated = []         # top-level generated parts
         self.leaves = []            # generated leaf parts, generation order
         self.new = {'receives': 0, 'finishes': 0, 'shutdowns': 0, 'restores': 0, 'hooks': 0, 'script': 0}
@@ -55,7 +57,7 @@ class ReceiveCb:
         if instrument.PROBING:
             return
         lg = self.log
-        lg.receives.append((lg.now(), self.dev_id, part, dev.cycle_time, lg.serial(), leaves_of(part)))
+        lg.receives.append((lg.now(), self.dev_id, part, dev.cycle_time, lg.serial(), leaves_of(part), part.value))
 
 
 class FinishCb:
@@ -137,6 +139,7 @@ class World:
 class ScriptAction:
     def __init__(self, world, op, log):
         self.world, self.op, self.log = world, op, log
+        self.__name__ = 'script_' + op['op']
 
     def __call__(self):
         w, op = self.world, self.op
@@ -235,6 +238,7 @@ def classes():
             p.huid = f'{self.src_id}:{n}' if k is None else f'{self.src_id}:{n}.{k}'
             p.hseq = n
             p.hsrc = self.src_id
+            p.h_initial_value = v
             return p
 
         def generate_part_helper(self, part_name, n):
@@ -291,6 +295,7 @@ def build(spec, bus=None, script=True):
     w = m.world
     log = m.log
     log.bus = bus
+    modelgen.GATE_LOG = log.gate_calls
     rm = ResourceManager()
     for r, c in sorted(spec.get('resources', {}).items()):
         rm.add_resources(r, c)
@@ -307,7 +312,7 @@ def build(spec, bus=None, script=True):
                 kw['starting_parts'] = it['budget']
             d = Source(name=i, part_generator=gen, cycle_time=it['ct'], **kw)
         elif k == 'handler':
-            d = PartHandler(name=i, upstream=ups, cycle_time=it['ct'])
+            d = PartHandler(name=i, upstream=ups, cycle_time=it['ct'], value=it.get('value', 0))
         elif k == 'processor':
             d = cls['HProc'](i, ups, it['ct'], dict(it['res']) if it.get('res') else None,
                              it.get('wo'), log, i)
@@ -320,7 +325,8 @@ def build(spec, bus=None, script=True):
                 d.add_shutdown_callback(ShutdownCb(log, i, n))
                 d.add_restored_callback(RestoredCb(log, i, n))
         elif k == 'buffer':
-            d = Buffer(name=i, upstream=ups, minimum_delay=it.get('delay', 0), capacity=it.get('cap'))
+            d = Buffer(name=i, upstream=ups, minimum_delay=it.get('delay', 0), capacity=it.get('cap'),
+                       value=it.get('value', 0))
         elif k == 'gate':
             d = DecisionGate(name=i, upstream=ups, decider_override=Pred(it['pred']))
         elif k == 'flow':
@@ -339,7 +345,7 @@ def build(spec, bus=None, script=True):
             kw = {}
             if it.get('cap') is not None:
                 kw['capacity'] = it['cap']
-            d = Maintainer(name=i, **kw)
+            d = Maintainer(name=i, value=it.get('value', 0), **kw)
         else:
             raise ValueError(k)
         if isinstance(d, PartHandler) and k != 'source':
